@@ -417,6 +417,8 @@ impl Writer for ProtobufWriter<'_> {
 
     #[inline]
     fn write_null<C: null::Constraint>(&mut self, _value: &Null) -> Result<(), Self::Error> {
+        // nothing is written, but the component occupies its field number in the generated schema
+        self.state.tag_counter += 1;
         Ok(())
     }
 }
